@@ -5,7 +5,7 @@
    No axioms; standard library only. *)
 From Sessions Require Import Model.Base Model.Sess Model.Hist Proofs.SessDefs
   Proofs.HistInv Proofs.HistInv3 Proofs.LineageK Proofs.LineageK3 Proofs.LineageF Proofs.CrashAny2 Proofs.CrashAny3.
-From Sessions Require Proofs.CrashChain.
+From Sessions Require Proofs.CrashChain Proofs.CrashFault13.
 From Coq Require Import Lia.
 
 Lemma replay_lookup_src : forall l sg x r,
@@ -44,6 +44,36 @@ Proof.
   destruct (replay_lookup_src _ _ _ _ H) as [A|A]; [left; exact A | right; eapply In_ev_prefix; exact A].
 Qed.
 
+Lemma stop_record_src_pre w r n x rx : rq_crash r = Some n ->
+  lookup (store (w_st (fst (step w (HReq r))))) x = Some rx ->
+  lookup (store (w_st w)) x = Some rx \/ In (EvSave x rx true) (ev_prefix (ob_evs (snd (step w (HReq (nocrash r))))) n).
+Proof.
+  intros Hcr H. pose proof (crash_sg w r n Hcr) as E. apply (f_equal fst) in E. cbn [fst] in E. rewrite E in H.
+  exact (replay_lookup_src _ _ _ _ H).
+Qed.
+
+Lemma no_deletes_prefix l n : no_deletes l -> no_deletes (ev_prefix l n).
+Proof. apply CrashFault13.ev_prefix_Forall. Qed.
+
+(* the chain, with the record it ends at: only the events the stop keeps matter *)
+Theorem chain_resolves_stop_record_pre w r n k0 rest :
+  LIx (w_st w) -> graves_drawn (w_st w) -> rq_plan r = [] -> rq_crash r = Some n ->
+  no_deletes (ev_prefix (ob_evs (snd (step w (HReq (nocrash r))))) n) ->
+  CrashChain.spath (fun _ => True) (store (w_st w)) k0 rest ->
+  exists tl rend,
+    CrashChain.spath (fun _ => True) (store (w_st (fst (step w (HReq r))))) k0 (rest ++ tl) /\
+    Forall (fresh_from_n (supply (w_st w))) tl /\
+    lookup (store (w_st (fst (step w (HReq r))))) (last (rest ++ tl) k0) = Some rend /\ r_ref rend = None /\
+    (lookup (store (w_st w)) (last (rest ++ tl) k0) = Some rend \/
+     In (EvSave (last (rest ++ tl) k0) rend true) (ev_prefix (ob_evs (snd (step w (HReq (nocrash r))))) n)).
+Proof.
+  intros Hl Hg Hpl Hcr Hnd Hp.
+  destruct (chain_resolves_stop w r n Hl Hg Hpl Hcr Hnd k0 rest Hp) as (tl & Hs & Hfr).
+  destruct (spath_end _ _ _ _ Hs) as (rend & A & B & _).
+  exists tl, rend. split; [exact Hs|]. split; [exact Hfr|]. split; [exact A|]. split; [exact B|].
+  exact (stop_record_src_pre w r n _ rend Hcr A).
+Qed.
+
 (* the chain, with the record it ends at *)
 Theorem chain_resolves_stop_record w r n k0 rest :
   LIx (w_st w) -> graves_drawn (w_st w) -> rq_plan r = [] -> rq_crash r = Some n ->
@@ -57,7 +87,7 @@ Theorem chain_resolves_stop_record w r n k0 rest :
      In (EvSave (last (rest ++ tl) k0) rend true) (ob_evs (snd (step w (HReq (nocrash r)))))).
 Proof.
   intros Hl Hg Hpl Hcr Hnd Hp.
-  destruct (chain_resolves_stop w r n Hl Hg Hpl Hcr Hnd k0 rest Hp) as (tl & Hs & Hfr).
+  destruct (chain_resolves_stop w r n Hl Hg Hpl Hcr (no_deletes_prefix _ n Hnd) k0 rest Hp) as (tl & Hs & Hfr).
   destruct (spath_end _ _ _ _ Hs) as (rend & A & B & _).
   exists tl, rend. split; [exact Hs|]. split; [exact Hfr|]. split; [exact A|]. split; [exact B|].
   exact (stop_record_src w r n _ rend Hcr A).
@@ -80,6 +110,6 @@ Theorem resolves_chain_stop w r n k0 :
 Proof.
   intros Hl Hg Hpl Hcr Hnd Hr.
   destruct (proj1 (CrashChain.resolves_chain_meaning _ _ _) Hr) as (rest & Hp).
-  destruct (chain_resolves_stop w r n Hl Hg Hpl Hcr Hnd k0 rest Hp) as (tl & Hs & _).
+  destruct (chain_resolves_stop w r n Hl Hg Hpl Hcr (no_deletes_prefix _ n Hnd) k0 rest Hp) as (tl & Hs & _).
   exact (CrashChain.spath_resolves_chain _ _ _ _ Hs).
 Qed.
